@@ -17,9 +17,14 @@ struct kfd {
 struct kfd	k_fd[KFD_MAX];
 int		k_bad_close, k_closes, k_opens;
 
+#ifndef VERIF_ON_OPEN
+#define VERIF_ON_OPEN(kind) do { } while (0)
+#endif
 static int k_alloc(int kind, int cloexec, int nonblock)
 {
 	int i;
+
+	VERIF_ON_OPEN(kind);
 
 	for (i = 3; i < KFD_MAX; i++) {
 		if (!k_fd[i].open) {
